@@ -78,6 +78,34 @@ PROPS = {
 }
 
 
+TY_NOTE = 'typing axioms ax_ty_*: every f64 field of a crate struct holds some f64 value (compensates a Verus encoding gap; true of Rust)'
+
+PROPS['C07'] = {
+    'verus': ['u_polycalc'],
+    'kani': {},
+    'probe': True,
+    'level': 'proof',
+    'explanation': 'Verus contracts on the real bodies of Poly0..Poly7::{indefinite,integral} (and the translate impls they call): zero constant term, '
+                   'coefficients c_i/(i+1), value at knot.x equals knot.y (exact-real model); client lemma roundtrip_k proves derivative(indefinite(p)) == p '
+                   'coefficient-wise from the two contracts alone. evaluate is used through its contract (proved in unit u_polyeval).',
+    'assumptions': [FM_NOTE, FM_BITS, TY_NOTE, Z3W,
+                    'Evaluate contracts of Poly1..Poly8 are assumed in this unit (external_body) and discharged by the C01 unit u_polyeval',
+                    'the step from coefficients c_i/(i+1) to F(b)-F(a) = integral of p is the power rule + fundamental theorem of calculus (textbook mathematics, not machine-checked)',
+                    'bit-level lane assertions ([bits]: single IEEE quotient) are secondary: their failure alone is reported only with a concrete failing input'],
+}
+PROPS['C08'] = {
+    'verus': ['u_polycalc'],
+    'kani': {},
+    'probe': True,
+    'level': 'proof',
+    'explanation': 'Verus contracts on the real bodies of Poly0..Poly8::derivative: lane i equals (i+1)*c_(i+1) in the exact-real model (degree 0 gives 0), '
+                   'with secondary bit-level assertions (lane 0 copied verbatim, every other lane one IEEE product).',
+    'assumptions': [FM_NOTE, FM_BITS, TY_NOTE,
+                    'Segment/Piecewise::derivative wiring is decided by Kani harnesses when present (bounded in the number of pieces)',
+                    'bit-level lane assertions ([bits]) are secondary: their failure alone is reported only with a concrete failing input'],
+}
+
+
 def scan_assumptions(units):
     """Mechanical scan of the templates and preludes for trusted declarations."""
     files = set()
